@@ -301,6 +301,7 @@ func (s *scen) inner(w http.ResponseWriter, r *http.Request) {
 		r.URL.Path = a.setURL
 		r.URL.RawPath = ""
 		r.URL.RawQuery = ""
+		r.URL.ForceQuery = false
 	}
 	for _, kv := range a.respHdr {
 		w.Header().Add(kv[0], kv[1])
